@@ -143,6 +143,7 @@ class Group(SharedRegistryObject):
     def add_groups(self, *group_names: str) -> None:
         """Add groups to group."""
         d = self._REGISTRY._groups
+        # Refuse the whole call before anything is installed.
         for group_name in group_names:
             grp = d[group_name]
 
@@ -152,8 +153,9 @@ class Group(SharedRegistryObject):
                     % (self.name, group_name)
                 )
 
+        for group_name in group_names:
             self._used_groups.add(group_name)
-            grp._used_by.add(self.name)
+            d[group_name]._used_by.add(self.name)
 
         self.invalidate_members()
 
